@@ -194,6 +194,13 @@ func crashSignature(stderr string) (sig, excerpt string) {
 	class = regexp.MustCompile(`\d+`).ReplaceAllString(class, "N")
 	frame := "-"
 	rest := strings.Join(lines[at:], "\n")
+	// only the panicking goroutine's stack counts (the dump lists every goroutine): it ends at the first blank
+	// line after its "goroutine N [running]:" header
+	if i := strings.Index(rest, "\ngoroutine "); i >= 0 {
+		if j := strings.Index(rest[i+1:], "\n\n"); j >= 0 {
+			rest = rest[:i+1+j]
+		}
+	}
 	if m := panicTop.FindStringSubmatch(rest); m != nil {
 		frame = m[1]
 		frame = strings.TrimPrefix(frame, "berty.tech/go-orbit-db/")
@@ -341,6 +348,8 @@ func ParentMain(self string, id, tier string, verifDir string) int {
 					sig, excerpt := crashSignature(es)
 					v := Violation{Property: id, Signature: sig, Detail: excerpt, Scenario: u.Name, Crash: true, UnitArg: u.Arg}
 					crashes++
+					// a panic whose own stack never enters go-orbit-db (or its log dependency) is the harness's
+					harnessOnly := strings.HasPrefix(sig, "crash:panic") && strings.HasSuffix(sig, " @ -") && !strings.Contains(excerpt, "berty.tech/go-ipfs-log")
 					if strings.HasPrefix(j, "H ") {
 						h := strings.TrimPrefix(j, "H ")
 						if h != "" {
@@ -362,7 +371,11 @@ func ParentMain(self string, id, tier string, verifDir string) int {
 					}
 					mu.Lock()
 					total.Counters["worker_crashes"]++
-					total.Violate(v)
+					if harnessOnly {
+						total.HarnessErrs = append(total.HarnessErrs, u.Name+": the harness itself panicked (no go-orbit-db frame on the panicking stack) at "+strings.Join(v.History, " ; ")+": "+firstLines(excerpt, 12))
+					} else {
+						total.Violate(v)
+					}
 					mu.Unlock()
 					if crashes > 400 {
 						mu.Lock()
